@@ -273,7 +273,14 @@ def execute_run(plan):
                 else:
                     ok = allow_verdict(lp.code_objs[fid].co_filename, plan["allow"]) is not False
                 if not ok:
-                    viol("C17.only-admitted", None, site, "row for %s.%s, which the configured filter rejects" % (module, qualname))
+                    # default / allow-list filter: verdicts are cached under code-object equality, so a
+                    # twin whose own verdict differs inherits the verdict of the copy that was asked first
+                    cause = None
+                    partner = TT.twin_partner(lp, fid)
+                    if mode != "custom" and partner is not None and partner in lp.code_objs and \
+                            allow_verdict(lp.code_objs[partner].co_filename, plan["allow"]) is not False:
+                        cause = "code_equality_ignores_filename"
+                    viol("C17.only-admitted", cause, site, "row for %s.%s, which the configured filter rejects" % (module, qualname))
                 continue
             # not a fixture function: decide from the file its code lives in
             fn = None
